@@ -343,3 +343,5 @@ M("mob-correction-tracer", MOB, "    return R * T * mobility_from_composition_se
   ["C10"], ["mobility_correction_not_applied", "tracer_not_RT_mobility", "darken_relation"], "tracer diffusivities ignore the mobility correction factors")
 M("el-setshape-params", EF, "        self.description = newDescription\n        self.description.params = self.params", "        self.description = newDescription\n        if isinstance(shape, str):\n            self.description.params = self.params",
   ["C16:quadratic"], ["entry_point_matters", "energy_not_finite"], "a description object passed to setShape (also by the typed setters) is not connected to the material parameters")
+M("stop-ge", SC, "            return self._poll(model, model.pData.n) > self._value", "            return self._poll(model, model.pData.n) >= self._value",
+  ["C19:stop"], ["stopped_without_condition", "satisfied_without_crossing", "did_not_stop"], "greater-than conditions also accept equality (threshold exactly on a recorded value)")
